@@ -291,6 +291,10 @@ def c12_programs(tier):
                 if body[0][0] == body[2][0] == body[1][0]:
                     continue
             for ti, top in enumerate(tops):
+                if ti != 1 and all(st[0] == "require" for st in body):
+                    # a behavior that never takes an action / waits is rejected at compile
+                    # time ("does not take any actions"): not a program of the fragment
+                    continue
                 for two in (False, True):
                     if two and (ti != 0 and not thorough):
                         continue
@@ -616,6 +620,9 @@ def c12_modular_programs(tier, start_index=0):
         bodies += [[("wait",), a, b] for a in al for b in al if a[0] != b[0]]
     for body in bodies:
         for ti, ta in enumerate((None, (3, "steps"))):
+            if ti == 1 and all(st[0] == "require" for st in body):
+                # '"compose" block does not invoke any scenarios': not in the fragment
+                continue
             scen = dict(C12_SUBSCENARIOS)
             scen["Main"] = {"terminate_after": ta, "terminate_when": ["tw"], "compose": list(body) + [("loop", None, [("wait",)])] if ti == 0 else list(body)}
             prog = {
